@@ -71,9 +71,11 @@ Ms(t) == SAdd(SMul(SB(t[1]), SB(DAYMS)), SB(t[2]))      \* milliseconds since th
 DT == SSub(Ms(D1), Ms(D0))
 \* exact image (x 1e9):  y*DT = r0*DT + (r1 - r0)*(t - d0)
 ExactNum(t) == SAdd(SMul(T.r0, DT), SMul(SSub(T.r1, T.r0), SSub(Ms(t), Ms(D0))))
-\* tolerance 1e-9 relative to the range magnitude, times the extrapolation factor (>= 1)
-TolQ == SMul(SB(T.factor), SAdd(SAdd(SAbs(T.r0), SAbs(T.r1)), SB(1)))
-CloseTo(y, t) == SLe(SAbs(SSub(SMul(y, DT), ExactNum(t))), SMul(TolQ, SAbs(DT)))
+\* tolerance 1e-9 relative to the range magnitude (+ 1e-9 absolute), times the extrapolation factor (>= 1).  All values are
+\* x 1e9, so the comparison is  |err| * 1e9 <= factor * (|r0| + |r1| + 1e9)
+E9 == SB(1000000000)
+TolQ9 == SMul(SB(T.factor), SAdd(SAdd(SAbs(T.r0), SAbs(T.r1)), E9))
+CloseTo(y, t) == SLe(SMul(SAbs(SSub(SMul(y, DT), ExactNum(t))), E9), SMul(TolQ9, SAbs(DT)))
 C15_Proportional == IsMap => CloseTo(T.y, I2(T.t)) /\ CloseTo(T.y2, I2(T.t2))
 C15_EndpointsMap == IsMap => T.at_d0 = 1 /\ T.at_d1 = 1
 DirSign == (IF TLt(D0, D1) THEN 1 ELSE -1) * (SCmp(T.r1, T.r0))
@@ -83,5 +85,5 @@ C15_StrictlyMonotone == (IsMap /\ TLt(I2(T.t), I2(T.t2))) => T.cmp = DirSign
 C15_InvertWithin1ms == (IsMap /\ T.inside = 1 /\ SCmp(T.r1, T.r0) # 0) =>
     LET d == Diff(I2(T.inv), I2(T.t)) IN d \in {<<0, 0>>, <<0, 1>>, <<-1, DAYMS - 1>>}
                                           /\ (d = <<0, 1>> => T.inv[3] = 0)
-C15_AgreesWithLinear == IsMap => SLe(SAbs(SSub(T.y, T.ylin)), TolQ)
+C15_AgreesWithLinear == IsMap => SLe(SMul(SAbs(SSub(T.y, T.ylin)), E9), TolQ9)
 =============================================================================
